@@ -191,6 +191,29 @@ class TSeq(T):
         raise Unsupported(f"expected sequence, got {v!r}")
 
 
+class TSetT(T):
+    """python set as ONE term: characteristic array K -> Bool"""
+
+    def __init__(self, kt: T):
+        self.kt = kt
+
+    def sort(self):
+        return z3.ArraySort(self.kt.sort(), z3.BoolSort())
+
+    def wrap(self, t):
+        return SSet(self.kt, t)
+
+    def unwrap(self, cx, v):
+        if isinstance(v, SSet):
+            return v.dom
+        if isinstance(v, (set, frozenset, list, tuple)):
+            t = z3.K(self.kt.sort(), z3.BoolVal(False))
+            for x in v:
+                t = z3.Store(t, self.kt.unwrap(cx, x), z3.BoolVal(True))
+            return t
+        raise Unsupported(f"expected set, got {v!r}")
+
+
 _map_sorts = {}
 
 
@@ -610,6 +633,8 @@ class SMap(SVal):
         return self._wrap_at(kt)
 
     def _wrap_at(self, kt):
+        if isinstance(self.vt, TSetT):
+            return SSetView(self, kt)  # sets inside dicts keep reference semantics
         if isinstance(self.vt, TSeq):
             return SSeqView(self, kt)  # lists inside dicts keep reference semantics
         return self.vt.wrap(z3.Select(self.val, kt))
@@ -646,6 +671,14 @@ class SMap(SVal):
 
     def meth_keys(self, cx):
         return SSet(self.kt, self.dom)
+
+    def meth_setdefault(self, cx, k, default=None):
+        kt = self.kt.unwrap(cx, k)
+        if not cx.decide(z3.Select(self.dom, kt)):
+            self.dom = z3.Store(self.dom, kt, z3.BoolVal(True))
+            self.val = z3.Store(self.val, kt, self.vt.unwrap(cx, default))
+            cx.note_write(("map", id(self)), self)
+        return self._wrap_at(kt)
 
     def meth_items(self, cx):
         return MapItems(self)
@@ -775,6 +808,16 @@ class SSet(SVal):
         self.dom = z3.Store(self.dom, self.kt.unwrap(cx, k), z3.BoolVal(True))
         cx.note_write(("set", id(self)), self)
 
+    def meth_discard(self, cx, k):
+        self.dom = z3.Store(self.dom, self.kt.unwrap(cx, k), z3.BoolVal(False))
+        cx.note_write(("set", id(self)), self)
+
+    def meth_remove(self, cx, k):
+        kt = self.kt.unwrap(cx, k)
+        cx.decide_or_fail(z3.Select(self.dom, kt), "KeyError", "set.remove of a missing element")
+        self.dom = z3.Store(self.dom, kt, z3.BoolVal(False))
+        cx.note_write(("set", id(self)), self)
+
     def py_iter_schema(self, cx):
         return SetIter(self.kt, self.dom, lambda kterm: self.kt.wrap(kterm))
 
@@ -801,6 +844,25 @@ class SSet(SVal):
 
     def same(self, cx, other):
         return as_bool(cx, self.py_eq(cx, other))
+
+
+class SSetView(SSet):
+    """A set stored as a dict value: reads/writes go through the map."""
+
+    def __init__(self, m, kterm):
+        self.m, self.k = m, kterm
+        self.kt = m.vt.kt
+
+    @property
+    def dom(self):
+        return z3.Select(self.m.val, self.k)
+
+    @dom.setter
+    def dom(self, v):
+        self.m.val = z3.Store(self.m.val, self.k, v)
+
+    def snapshot(self):
+        return SSet(self.kt, self.dom)
 
 
 class SetIter:
